@@ -50,7 +50,8 @@ theorem replaceBuf_wins {S : State} {dst : Nat} {set : Option Nat} (buf : Option
 theorem fastAppend_own {s : State} {h b : Nat} {x : Buf} (inv : Inv s) (o : Own s h b x) (xt : x.traits = none) (w : Win)
     (wfit : w.off + w.len ≤ x.used) (nblk esz : Nat) (bytes : List Byte) (bl : bytes.length = nblk * esz)
     (hwl : h < s.wins.length) :
-    ∃ s' k, fastAppend s h b w nblk esz bytes = .ok s' k ∧ k ≤ nblk ∧ Inv s' ∧ (∀ h', h' ≠ h → s'.abs h' = s.abs h') ∧
+    ∃ s' k, fastAppend s h b w nblk esz bytes = .ok s' k ∧ k ≤ nblk ∧
+      (nblk ≠ 0 → esz ≠ 0 → esz ≤ x.size - (w.off + w.len) → 1 ≤ k) ∧ Inv s' ∧ (∀ h', h' ≠ h → s'.abs h' = s.abs h') ∧
       s'.win h = some { off := w.off, len := w.len + k * esz } ∧
       Vec.sub (s'.abs h) w.off (w.len + k * esz) = Vec.sub x.content w.off w.len ++ Vec.blocks bytes k esz := by
   have xu := inv.used b x o.hb
@@ -73,7 +74,11 @@ theorem fastAppend_own {s : State} {h b : Nat} {x : Buf} (inv : Inv s) (o : Own 
     o.ref rfl (by simp only [Buf.size, wl]; simp only [Buf.size] at pfit xu; omega) (by rw [xt]; exact PlainT.none)
     (by simp [xt, esize, Nat.mod_one])
   obtain ⟨inv', _, abs', oth', _⟩ := up
-  refine ⟨_, k, rfl, kn, inv'.setWin _ _, oth', State.win_setWin _ _ _ hwl, ?_⟩
+  refine ⟨_, k, rfl, kn, ?_, inv'.setWin _ _, oth', State.win_setWin _ _ _ hwl, ?_⟩
+  · intro n0 e0 room
+    rw [← hk]
+    have : 1 ≤ (x.size - (w.off + w.len)) / esz := Nat.div_pos room (Nat.pos_of_ne_zero e0)
+    omega
   show Vec.sub ((s.setBuf b _).abs h) _ _ = _
   rw [abs']
   simp only [Vec.sub, Vec.blocks, Buf.content]
@@ -108,7 +113,7 @@ theorem sliceSlow_sem {S : State} (inv : Inv S) {h : Nat} (hlt : h < S.hs.length
     (nblk esz : Nat) (bytes : List Byte) (bl : bytes.length = nblk * esz) :
     match sliceSlow S h w bx nblk esz bytes with
     | .fault _ => False
-    | .fail s' _ => Inv s' ∧ ∀ h', h' ≠ h → s'.abs h' = S.abs h'
+    | .fail s' _ => Inv s' ∧ ∀ h', s'.abs h' = S.abs h'
     | .ok s' k => Inv s' ∧ k = nblk ∧ (∀ h', h' ≠ h → s'.abs h' = S.abs h') ∧
         s'.win h = some { off := 0, len := w.len + nblk * esz } ∧
         s'.abs h = Vec.sub (S.abs h) w.off w.len ++ bytes := by
@@ -190,7 +195,7 @@ theorem sliceSlow_sem {S : State} (inv : Inv S) {h : Nat} (hlt : h < S.hs.length
   generalize replaceBuf _ h (some S.bufs.length) (S.handle h) = r at rs wn
   cases r with
   | fault e => exact rs
-  | fail s3 e => exact ⟨rs.1, fun h' _ => rs.2.2 h'⟩
+  | fail s3 e => exact ⟨rs.1, rs.2.2⟩
   | ok s3 v =>
     refine ⟨rs.1, rfl, rs.2.2.2, ?_, ?_⟩
     · have := wn s3 v rfl
@@ -214,11 +219,11 @@ theorem sub_all (A B : List Byte) : Vec.sub (A ++ B) 0 (A.length + B.length) = A
 /-- `mpt_slice_write`: whole blocks are appended to the window of the slice handle (`k ≤ nblk` of them; all when a
     new buffer is needed); every other handle keeps its value; a typed buffer is refused without a change -/
 theorem sliceWrite_sem (s : State) (h nblk esz : Nat) (bytes : List Byte) (w : Win) (inv : Inv s) (hlt : h < s.hs.length)
-    (bl : bytes.length = nblk * esz) (hw : s.win h = some w) (wfit : w.off + w.len ≤ (s.abs h).length) :
+    (e0 : esz ≠ 0) (bl : bytes.length = nblk * esz) (hw : s.win h = some w) (wfit : w.off + w.len ≤ (s.abs h).length) :
     match sliceWrite s h nblk esz bytes with
     | .fault _ => False
-    | .fail s' _ => Inv s' ∧ ∀ h', h' ≠ h → s'.abs h' = s.abs h'
-    | .ok s' k => Inv s' ∧ k ≤ nblk ∧ (∀ h', h' ≠ h → s'.abs h' = s.abs h') ∧
+    | .fail s' _ => Inv s' ∧ ∀ h', s'.abs h' = s.abs h'
+    | .ok s' k => Inv s' ∧ k ≤ nblk ∧ (nblk ≠ 0 → 1 ≤ k) ∧ (∀ h', h' ≠ h → s'.abs h' = s.abs h') ∧
         ∃ w', s'.win h = some w' ∧
           Vec.sub (s'.abs h) w'.off w'.len = Vec.sub (s.abs h) w.off w.len ++ Vec.blocks bytes k esz := by
   have hwl := State.win_lt hw
@@ -230,8 +235,8 @@ theorem sliceWrite_sem (s : State) (h nblk esz : Nat) (bytes : List Byte) (w : W
         | none => w.len = 0) → bx = (s.handle h).bind s.buf? →
       match sliceSlow (s.setWin h (some w)) h w bx nblk esz bytes with
       | .fault _ => False
-      | .fail s' _ => Inv s' ∧ ∀ h', h' ≠ h → s'.abs h' = s.abs h'
-      | .ok s' k => Inv s' ∧ k ≤ nblk ∧ (∀ h', h' ≠ h → s'.abs h' = s.abs h') ∧
+      | .fail s' _ => Inv s' ∧ ∀ h', s'.abs h' = s.abs h'
+      | .ok s' k => Inv s' ∧ k ≤ nblk ∧ (nblk ≠ 0 → 1 ≤ k) ∧ (∀ h', h' ≠ h → s'.abs h' = s.abs h') ∧
           ∃ w', s'.win h = some w' ∧
             Vec.sub (s'.abs h) w'.off w'.len = Vec.sub (s.abs h) w.off w.len ++ Vec.blocks bytes k esz := by
     intro bx hk hbx
@@ -242,7 +247,7 @@ theorem sliceWrite_sem (s : State) (h nblk esz : Nat) (bytes : List Byte) (w : W
     | fail s' e => exact ss
     | ok s' k =>
       obtain ⟨inv', ek, oth, win', abs'⟩ := ss
-      refine ⟨inv', by omega, oth, _, win', ?_⟩
+      refine ⟨inv', by omega, fun _ => by omega, oth, _, win', ?_⟩
       rw [abs', ek, blk]
       have : (Vec.sub ((s.setWin h (some w)).abs h) w.off w.len).length = w.len := sub_length _ _ _ wfit
       have sa := sub_all (Vec.sub ((s.setWin h (some w)).abs h) w.off w.len) bytes
@@ -264,7 +269,7 @@ theorem sliceWrite_sem (s : State) (h nblk esz : Nat) (bytes : List Byte) (w : W
     rw [hb]
     simp only
     by_cases typed : x.traits.isSome = true
-    · rw [if_pos typed]; exact ⟨inv, fun _ _ => rfl⟩
+    · rw [if_pos typed]; exact ⟨inv, fun _ => rfl⟩
     · rw [if_neg typed]
       have xt : x.traits = none := by cases ht : x.traits with
         | none => rfl
@@ -285,15 +290,15 @@ theorem sliceWrite_sem (s : State) (h nblk esz : Nat) (bytes : List Byte) (w : W
         have o : Own (s.setWin h (some w)) h b x := ⟨hh, hb, r1, priv.1⟩
         by_cases n0 : nblk = 0
         · rw [if_pos n0]
-          refine ⟨inv.setWin _ _, by omega, fun _ _ => rfl, w, State.win_setWin _ _ _ hwl, ?_⟩
+          refine ⟨inv.setWin _ _, by omega, fun c => absurd n0 c, fun _ _ => rfl, w, State.win_setWin _ _ _ hwl, ?_⟩
           simp [Vec.blocks]
           rfl
         · rw [if_neg n0]
           by_cases fast : x.size - (w.off + w.len) ≥ esz
           · rw [if_pos fast]
-            obtain ⟨s', k, q, kn, inv', oth, win', sub'⟩ := fastAppend_own (inv.setWin _ _) o xt w wf' nblk esz bytes bl (hwl' _)
+            obtain ⟨s', k, q, kn, k1, inv', oth, win', sub'⟩ := fastAppend_own (inv.setWin _ _) o xt w wf' nblk esz bytes bl (hwl' _)
             rw [q]
-            exact ⟨inv', kn, oth, _, win', by rw [sub', absx]⟩
+            exact ⟨inv', kn, fun c => k1 c e0 fast, oth, _, win', by rw [sub', absx]⟩
           · rw [if_neg fast]
             by_cases front : w.off ≠ 0 ∧ x.size - (w.off + w.len) + w.off ≥ esz
             · rw [if_pos front]
@@ -308,11 +313,16 @@ theorem sliceWrite_sem (s : State) (h nblk esz : Nat) (bytes : List Byte) (w : W
               have o1' : Own (sliceFront (s.setWin h (some w)) h b x w) h b
                   { x with data := (if w.len ≠ 0 then Mem.move x.data 0 w.off w.len else x.data), used := w.len } :=
                 ⟨o1.hh, o1.hb, o1.ref, o1.wr⟩
-              obtain ⟨s', k, q, kn, inv', oth, win', sub'⟩ := fastAppend_own (s := sliceFront (s.setWin h (some w)) h b x w)
+              obtain ⟨s', k, q, kn, k1, inv', oth, win', sub'⟩ := fastAppend_own (s := sliceFront (s.setWin h (some w)) h b x w)
                 (inv1.setWin _ _) o1' xt { off := 0, len := w.len } (by simp) nblk esz bytes bl
                 (by simp only [sliceFront, setUsed, State.setWin, State.setBuf, List.length_set]; exact hwl)
               rw [q]
-              refine ⟨inv', kn, fun h' ne => ?_, _, win', ?_⟩
+              refine ⟨inv', kn, fun c => k1 c e0 ?_, fun h' ne => ?_, _, win', ?_⟩
+              · show esz ≤ (if w.len ≠ 0 then Mem.move x.data 0 w.off w.len else x.data).length - (0 + w.len)
+                rw [dlen]
+                have := front.2
+                simp only [Buf.size] at this xu ⊢
+                omega
               · rw [oth h' ne]; exact oth1 h' ne
               · rw [sub']
                 congr 1
